@@ -5,6 +5,7 @@ package verifsim
 import (
 	"fmt"
 	"strconv"
+	"time"
 
 	"github.com/istio-ecosystem/authservice/internal/simsync"
 )
@@ -24,7 +25,16 @@ func init() {
 //go:norace
 func hookYield(pos int) {
 	s := hookSim
-	if s == nil || !s.On {
+	if s == nil {
+		return
+	}
+	if !s.On {
+		if pos < 0 {
+			// a simulator mutex is spinning while the scheduler is off (sequential phase): the holder runs in
+			// another goroutine right now. Block durably for a fake microsecond so that the holder can finish;
+			// a lock that is never released still exhausts the spin budget and is reported.
+			time.Sleep(time.Microsecond)
+		}
 		return
 	}
 	name := "Lk"
